@@ -131,6 +131,8 @@ def k_frag(ctx, packets, ids13, cuts, schedule, chunk_variant=0):
     stream = b"".join(pk)
     case = {"k": "frag", "packets": packets, "ids13": ids13, "cuts": cuts, "schedule": schedule, "chunk_variant": chunk_variant}
     ctx.table("chunk_variant", ("bytearray", "with_empty_chunks", "bytes_and_bytearray")[chunk_variant])
+    mx = max(map(len, pk))
+    ctx.table("longest_packet", "7-40" if mx <= 40 else "41-519" if mx <= 519 else "520-65540" if mx < 65541 else "65541-65542")
     cc = cut_classes(stream, pk, cuts)
     for c in cc:
         ctx.table("cut_classes", c)
@@ -198,6 +200,10 @@ def k_random(ctx, seed):
         p = make_packet(r, ids13)
         pk.append(p)
         total += len(p)
+    if r.random() < 0.12:
+        # one long packet (length field above one octet / at the 16-bit maximum) somewhere in the stream
+        big = make_packet(r, ids13, r.choice((262, 263, 519, 4103, 65541, 65542)))
+        pk.insert(r.randrange(len(pk) + 1), big)
     stream = b"".join(pk)
     ncuts = r.choice((0, 1, 2, 3, 8, 30))
     cuts = sorted(r.sample(range(1, len(stream)), min(len(stream) - 1, ncuts)))
